@@ -449,6 +449,8 @@ def main():
     for h in (False, True):
         for n in sizes:
             for base in BASES:
+                if base == 'c' and n > 4:
+                    continue      # every symbolic character forks ~10 ways (printable, quote, backslash, inverted, ...): at most 4
                 items.append(('data', 'defb', n, h, False, ((0, base),)))
                 items.append(('data', 'defm', n, h, False, ((0, base),)))
                 if n % 2 == 0:
@@ -463,7 +465,8 @@ def main():
             if n >= 2:
                 items.append(('data', 'defb', n, h, False, ((1, 'c'), (n - 1, 'n'))))
                 items.append(('data', 'defb', n, h, True, ((n - 1, 'h'), (1, 'd'))))
-                items.append(('data', 'defm', n, h, False, ((n - 1, 'c'), (1, 'b'))))
+                if n <= 5:
+                    items.append(('data', 'defm', n, h, False, ((n - 1, 'c'), (1, 'b'))))
         for base in BASES:
             if base == 'm':
                 continue      # a DEFS size is not a signed operand
